@@ -92,7 +92,7 @@ package container
 //@   ensures !has(cq.current, uuid)
 //@   ensures forall u string :: u != uuid ==> has(cq.current, u) == old(has(cq.current, u)) && cq.current[u] == old(cq.current[u])
 
-//@ func Queue.updateWithResp property C14
+//@ func Queue.updateWithResp property C14,C16
 //@   requires cq.current != nil
 //@   ensures old(cq.dontupdate) != nil ==> has(cq.dontupdate, uuid)
 //@   ensures old(has(cq.current, uuid)) ==> has(cq.current, uuid) && cq.current[uuid].Container.State == resp.State && cq.current[uuid].Container.Priority == resp.Priority && cq.current[uuid].Container.LockedByUUID == resp.LockedByUUID
